@@ -136,7 +136,7 @@ def frame_obligations(it, fr, contract, exceptional, tag, line):
         if cur is None:
             continue
         if old.val is not None:
-            if addr in allowed_cells or cur.val is old.val:
+            if addr in allowed_cells or cur.val is old.val or addr in it.local_cells:
                 continue
             try:
                 diffs.append((f"cell{addr}", vals.eq(old.val, cur.val)))
